@@ -69,7 +69,7 @@ TVEnd == /\ l <= Len(Rec) /\ Rec[l].ev = "end"
                       THEN {"C12/P2/kick-never-processed/script=" \o Join(script) \o (IF eaten THEN "/wake-up-consumed-while-disabled" ELSE "")} ELSE {})
                 \cup (IF e.unanswered > 0 THEN {"C12/control-message-unanswered/script=" \o Join(script)} ELSE {}), cur)
          /\ l' = l + 1 /\ UNCHANGED <<quiet, lastOff, owed, eaten, wpc, wAtChange, script, late, judged, cur, opq>>
-TVOther == /\ l <= Len(Rec) /\ Rec[l].ev = "threads" /\ l' = l + 1 /\ UNCHANGED <<quiet, lastOff, owed, eaten, wpc, wAtChange, script, late, viol, judged, cur, opq>>
+TVOther == /\ l <= Len(Rec) /\ Rec[l].ev \in {"threads", "unexpected_wake"} /\ l' = l + 1 /\ UNCHANGED <<quiet, lastOff, owed, eaten, wpc, wAtChange, script, late, viol, judged, cur, opq>>
 \* the process under test was killed by a signal while this case ran (recorded by the driver; `begin` marks the letter that
 \* was in progress): judged like any other observation -- whatever the property, an input that kills the process breaks it
 TVCrashAny == /\ l <= Len(Rec) /\ Rec[l].ev = "crash"
